@@ -234,7 +234,13 @@ Definition run_case (c : model * list ttp) : list Z :=
   (* hypotheses of the C01/C02 composition theorems, decided on this input;
      and the conclusion of C01 on the model's result *)
   let hyp := forallb wf_sgb (m_subgraphs (fst c)) && uids_okb (fst c)
-             && forallb names_uniqueb (m_subgraphs (fst c)) in
+             && forallb names_uniqueb (m_subgraphs (fst c))
+             (* C19 composition: opcode indices in range, instruction subgraph ids >= 0 *)
+             && forallb (fun g => forallb (fun o => (0 <=? o_code o) && (o_code o <? lenZ (m_opcodes (fst c))))
+                                          (sg_ops g)) (m_subgraphs (fst c))
+             && match r1 with
+                | Ok tis => forallb (fun ti => (0 <=? ti_sg ti) && forallb (fun i => 0 <=? i_tensor i) (ti_insts ti)) tis
+                | Err _ => true end in
   let concl := match r2 with
                | Ok m' => forallb wf_sgb (m_subgraphs m') && forallb names_uniqueb (m_subgraphs m')
                | Err _ => true end in
@@ -268,9 +274,15 @@ def gen_cases(rng, n):
     for trial in range(2):
       qt = quantizer.Quantizer(bytearray(mb))
       if alias and trial == 0:
-        name = rng.choice(['default_a8w8_recipe', 'default_a16w8_recipe'])
-        qt.load_quantization_recipe(copy.deepcopy(ship[name]))
-        desc = name
+        # static everywhere, graph outputs (and sometimes inputs) left float:
+        # a DEQUANTIZE is inserted in front of every (aliased) graph output
+        cn = rng.choice(['a8w8', 'a16w8', 'a8sw8'])
+        rules = [('.*', '*', gr.named_configs()[cn][0], cn), ('.*', 'OUTPUT', gr.NQ, 'nq')]
+        if rng.random() < 0.5:
+          rules.append(('.*', 'INPUT', gr.NQ, 'nq'))
+        desc = gr.apply_rules(qt, rules)
+        if not desc:
+          continue
       elif fan and trial == 0:
         desc = gr.apply_rules(qt, gr.fanout_rules(rng, mb))
         if not desc:
